@@ -8,7 +8,9 @@
 #include "gen.h"
 #include "cut.h"
 
-typedef struct pstate { const char *name; int dir; const char *qpre, *spre; const char *qsuf, *ssuf; } pstate;
+typedef struct pstate { const char *name; int dir; const char *qpre, *spre; const char *qsuf, *ssuf; const char *bpre, *bsuf; int adestroy; } pstate;
+/* bpre / bsuf: text around the units INSIDE a chunked body (qsuf == NULL); dir 2: the units are whole exchanges, the request part before '|' goes into the
+ * request stream and the response part into the response stream; adestroy: tx_auto_destroy on */
 /* dir: 0 = the pumped units go into the request stream, 1 = response stream */
 static const pstate ST[] = {
     { "request line",            0, "GET /", "",                                                     " HTTP/1.1\r\nHost: h\r\n\r\n", "HTTP/1.1 200 OK\r\nContent-Length: 0\r\n\r\n" },
@@ -45,6 +47,13 @@ static const pstate ST[] = {
     { "authority in request line", 0, "GET http://", "",                                                  "/ HTTP/1.1\r\nHost: h\r\n\r\n", "HTTP/1.1 200 OK\r\nContent-Length: 0\r\n\r\n" },
     { "before status line",      1, "GET / HTTP/1.1\r\nHost: h\r\n\r\n", "",                         "", "HTTP/1.1 200 OK\r\nContent-Length: 0\r\n\r\n" },
     { "after complete response", 1, "GET / HTTP/1.1\r\nHost: h\r\n\r\n", "HTTP/1.1 200 OK\r\nContent-Length: 0\r\n\r\n", "", "" },
+    /* the header block of one multipart part, the parameters of one Content-Disposition, k exchanges on one connection (transactions kept / destroyed on completion) */
+    { "multipart part header block", 0, "POST / HTTP/1.1\r\nHost: h\r\nContent-Type: multipart/form-data; boundary=B\r\nTransfer-Encoding: chunked\r\n\r\n", "", NULL, "HTTP/1.1 200 OK\r\nContent-Length: 0\r\n\r\n",
+      "--B\r\nContent-Disposition: form-data; name=\"a\"\r\n", "\r\nv\r\n--B--\r\n", 0 },
+    { "multipart content-disposition value", 0, "POST / HTTP/1.1\r\nHost: h\r\nContent-Type: multipart/form-data; boundary=B\r\nTransfer-Encoding: chunked\r\n\r\n", "", NULL, "HTTP/1.1 200 OK\r\nContent-Length: 0\r\n\r\n",
+      "--B\r\nContent-Disposition: form-data; name=\"a\"", "\r\n\r\nv\r\n--B--\r\n", 0 },
+    { "exchanges on one connection", 2, "", "", "", "", NULL, NULL, 0 },
+    { "exchanges on one connection, auto-destroy", 2, "", "", "", "", NULL, NULL, 1 },
 };
 #define NST ((int) (sizeof ST / sizeof ST[0]))
 typedef struct punit { const char *name; const char *text; int distinct; } punit;   /* distinct: %d in text is replaced by the repetition index */
@@ -56,8 +65,11 @@ static const punit UN[] = {
     { "/", "/", 0 }, { "/.", "/.", 0 }, { "/../", "/../", 0 }, { "backslash", "\\", 0 }, { "%2f", "%2f", 0 }, { "overlong utf8", "\xc0\xaf", 0 }, { "NUL", "\0", 0 }, { "HTTP/1.1 200 OK CRLF", "HTTP/1.1 200 OK\r\n", 0 },
     { "quote", "\"", 0 }, { "username=\"", "username=\"", 0 }, { ":", ":", 0 }, { ".", ".", 0 }, { "@", "@", 0 }, { "[", "[", 0 }, { "chunked,", "chunked,", 0 },
     { "GET / CRLF", "GET /\r\n", 0 }, { "x CRLF", "x\r\n", 0 }, { "SP CRLF", " \r\n", 0 },
+    { "; boundary=x", "; boundary=x", 0 }, { "; p=\"v\"", "; p=\"v\"", 0 }, { "distinct ; p=v", "; p%d=v", 1 },
+    { "exchange GET / 200", "GET /%d HTTP/1.1\r\nHost: h\r\n\r\n|HTTP/1.1 200 OK\r\nContent-Length: 0\r\n\r\n", 3 },
+    { "exchange POST / 200 with bodies", "POST /%d HTTP/1.1\r\nHost: h\r\nContent-Length: 3\r\n\r\nabc|HTTP/1.1 200 OK\r\nContent-Length: 2\r\n\r\nok", 3 },
     /* two-phase units: the first half of the repetitions uses the text before '|', the second half the text after it */
-    { "SP^k then 0^k", " |0", 2 }, { "HTAB^k then a^k", "\t|a", 2 }, { "CRLF^k then 0^k", "\r\n|0", 2 }, { "SP^k then x^k", " |x", 2 }, { "a^k then SP^k", "a| ", 2 }, { "0^k then ;e^k", "0|;e", 2 },
+    { "SP^k then 0^k", " |0", 2 }, { "HTAB^k then a^k", "\t|a", 2 }, { "CRLF^k then 0^k", "\r\n|0", 2 }, { "SP^k then x^k", " |x", 2 }, { "a^k then SP^k", "a| ", 2 }, { "0^k then ;e^k", "0|;e", 2 }, { "(boundary SP)^k then =^k", "boundary |=", 2 }, { "(; boundary)^k then =^k", "; Boundary|=", 2 },
 };
 #define NUN ((int) (sizeof UN / sizeof UN[0]))
 
@@ -71,6 +83,13 @@ static int PRECUT;   /* combined cut position of the end of the prefix in the pu
 static void build(const pstate *st, const punit *u, int k, int proper) {
     hb_reset(&Q); hb_reset(&R); hb_reset(&U);
     size_t ulen = u->text[0] ? strlen(u->text) : 1;
+    if (st->dir == 2) {
+        /* k whole exchanges: requests into Q, responses into R (unit kind 3 only) */
+        const char *bar = strchr(u->text, '|'); char qt[200]; snprintf(qt, sizeof qt, "%.*s", (int) (bar - u->text), u->text);
+        for (int i = 0; i < k; i++) { hb_printf(&Q, qt, i); hb_puts(&R, bar + 1); }
+        if (!proper) R.n -= 2;           /* abrupt close inside the last response */
+        PRECUT = 0; return;
+    }
     if (u->distinct == 2) { const char *bar = strchr(u->text, '|'); size_t la = (size_t) (bar - u->text), lb = strlen(bar + 1);
         for (int i = 0; i < k / 2; i++) hb_put(&U, u->text, la); for (int i = 0; i < k / 2; i++) hb_put(&U, bar + 1, lb); }
     else
@@ -79,7 +98,8 @@ static void build(const pstate *st, const punit *u, int k, int proper) {
     size_t pre_q = Q.n, pre_r = R.n;
     if (st->qsuf == NULL) {
         /* the units form a chunked body: one chunk carrying all of them */
-        hb_printf(&Q, "%zx\r\n", U.n); hb_put(&Q, U.p, U.n); hb_puts(&Q, "\r\n"); if (proper) hb_puts(&Q, "0\r\n\r\n");
+        size_t bl = U.n + (st->bpre ? strlen(st->bpre) : 0) + (st->bsuf && proper ? strlen(st->bsuf) : 0);
+        hb_printf(&Q, "%zx\r\n", bl); if (st->bpre) hb_puts(&Q, st->bpre); hb_put(&Q, U.p, U.n); if (st->bsuf && proper) hb_puts(&Q, st->bsuf); hb_puts(&Q, "\r\n"); if (proper) hb_puts(&Q, "0\r\n\r\n");
         if (proper) hb_puts(&R, st->ssuf);
         PRECUT = (pre_q > 0 && pre_q < Q.n) ? (int) pre_q : 0;
         return;
@@ -89,16 +109,19 @@ static void build(const pstate *st, const punit *u, int k, int proper) {
     /* cut positions: 1..nq-1 in the request stream, nq+1..nq+ns-1 in the response stream */
     if (st->dir == 0) PRECUT = (pre_q > 0 && pre_q < Q.n) ? (int) pre_q : 0; else PRECUT = (pre_r > 0 && pre_r < R.n) ? (int) (Q.n + pre_r) : 0;
 }
+static int cur_adestroy;
 static uint64_t run_shape(int onebyte) {
-    hx_script_init(&S); S.light = 1; S.cfg.log_level = HTP_LOG_NONE;
+    hx_script_init(&S); S.light = 1; S.cfg.log_level = HTP_LOG_NONE; S.cfg.auto_destroy = (uint8_t) cur_adestroy;
     if (onebyte == 2) cx_build(&S, Q.p, Q.n, R.p, R.n, &PRECUT, PRECUT > 0 ? 1 : 0, 1); else
     if (onebyte) cx_build_uniform(&S, Q.p, Q.n, R.p, R.n, 1, 1); else cx_build(&S, Q.p, Q.n, R.p, R.n, NULL, 0, 1);
     if (hx_run(&S, &O)) return 0;
     n_exec++; n_calls += O.ncalls;
-    return O.work_total;
+    return O.work_total + O.work_teardown;         /* tearing the connection down is part of the work spent on the stream */
 }
 static void shape(int si, int ui, int proper, int onebyte, int topexp) {
     const pstate *st = &ST[si]; const punit *u = &UN[ui];
+    if ((st->dir == 2) != (u->distinct == 3)) return;           /* exchange units belong to the exchange states and only there */
+    cur_adestroy = st->adestroy;
     uint64_t w[20]; size_t bytes[20]; int nr = 0; int bad_streak = 0;
     size_t ulen = u->text[0] ? strlen(u->text) : 1;
     for (int e = 6; e <= topexp; e++) {
@@ -156,8 +179,10 @@ static int worker(int argc, char **argv) {
     }
     if (hx_work == 0) { /* the meter must be alive in this flavour */ build(&ST[0], &UN[5], 64, 1); if (run_shape(0) == 0) { fprintf(stderr, "pump: the work meter reads 0 - this binary was not built in the cost flavour\n"); return 2; } }
     long id = 0;
+    const char *only_state = hx_arg(argc, argv, "--only-state", NULL);          /* exploration aid: restrict to the states whose name contains this text */
     for (int si = 0; si < NST; si++) for (int ui = 0; ui < NUN; ui++) for (int proper = 1; proper >= 0; proper--) for (int one = 0; one < 3; one++) {
         if (one == 2 && !proper) continue;                   /* the split delivery is run with the proper suffix only */
+        if (only_state && !strstr(ST[si].name, only_state)) continue;
         if (id++ % hx_shard_n != hx_shard_i) continue;
         if (hx_deadline_hit()) goto out;
         shape(si, ui, proper, one, one == 1 ? top1 : top);
